@@ -92,6 +92,7 @@ class FileRefs(ast.NodeVisitor):
         self.imports = []        # (module, line, guarded)
         self.from_imports = []   # (module, name, line, guarded)
         self.refs = []           # (dotted root path, [attrs], line, guarded)
+        self.kwcalls = []        # (dotted root path, [attrs], [keyword names], line, guarded)
         self.guard = 0
         self.assigned = set()
 
@@ -253,8 +254,21 @@ class FileRefs(ast.NodeVisitor):
             if mod.split(".")[0] not in INTERNAL and not mod.startswith("."):
                 self.imports.append((mod, node.lineno, self.guard > 0))
 
+    def _keyword_call(self, node):
+        kws = [k.arg for k in node.keywords if k.arg is not None]
+        if not kws:
+            return
+        chain, n = [], node.func
+        while isinstance(n, ast.Attribute):
+            chain.append(n.attr)
+            n = n.value
+        if isinstance(n, ast.Name) and n.id in self.alias and chain:
+            chain.reverse()
+            self.kwcalls.append((self.alias[n.id], chain, kws, node.lineno, self.guard > 0))
+
     def visit_Call(self, node):
         self._dynamic_import(node)
+        self._keyword_call(node)
         # getattr(mod, "name", default) is a guarded reference; getattr(mod, "name") an unguarded one
         if getattr(node.func, "id", "") == "getattr" and len(node.args) >= 2 \
                 and isinstance(node.args[0], ast.Name) and node.args[0].id in self.alias \
@@ -280,6 +294,71 @@ def resolve_module(path):
     return mod, ".".join(parts[:used]), parts[used:]
 
 
+
+FRESH_SCRIPT = r"""
+import sys, json, types, importlib
+spec = json.load(sys.stdin)
+for m in spec["imports"]:
+    try:
+        importlib.import_module(m)
+    except Exception:
+        pass
+out = {}
+for path in spec["paths"]:
+    parts = path.split(".")
+    cur = sys.modules.get(parts[0])
+    ok = isinstance(cur, types.ModuleType)
+    for a in parts[1:]:
+        if not ok:
+            break
+        try:
+            cur = getattr(cur, a)      # plain attribute access, as the source does it (module __getattr__ included)
+        except Exception:
+            ok = False
+            break
+        ok = isinstance(cur, types.ModuleType)
+    if ok:
+        out[path] = sorted(set(dir(cur)))
+sigs = {}
+import inspect
+for full in spec.get("callees", []):
+    cur = sys.modules.get(full[0])
+    ok = cur is not None
+    for a in full[1:]:
+        if not ok:
+            break
+        try:
+            cur = getattr(cur, a)
+        except Exception:
+            ok = False
+    if not ok or not callable(cur):
+        continue
+    try:
+        sg = inspect.signature(cur)
+    except Exception:
+        continue                       # builtins / ufuncs without an introspectable signature: not decided
+    names = [p.name for p in sg.parameters.values() if p.kind in (p.POSITIONAL_OR_KEYWORD, p.KEYWORD_ONLY)]
+    sigs[".".join(full)] = [names, any(p.kind == p.VAR_KEYWORD for p in sg.parameters.values())]
+json.dump({"modules": out, "signatures": sigs}, sys.stdout)
+"""
+
+
+def fresh_modules(import_list, paths, callees=()):
+    """{module path: dir()} for every path that is reachable BY ATTRIBUTE ACCESS in a fresh interpreter which has
+    executed exactly the package's own external import statements.  A sub-module such as numpy.lib.recfunctions exists
+    as an attribute only once somebody imported it; resolving it with import_module here would make the reference
+    look fine although a fresh process fails on it."""
+    import json as _json
+    import subprocess
+    p = subprocess.run([sys.executable, "-W", "ignore", "-c", FRESH_SCRIPT],
+                       input=_json.dumps({"imports": sorted(import_list), "paths": sorted(paths),
+                                          "callees": sorted(list(c) for c in callees)}),
+                       capture_output=True, text=True, timeout=600)
+    if p.returncode != 0:
+        raise ValueError("fresh-interpreter module resolution failed: " + p.stderr[-400:])
+    r = _json.loads(p.stdout)
+    return r["modules"], r["signatures"]
+
 def lean_str(s):
     return '"' + s.replace("\\", "\\\\").replace('"', '\\"') + '"'
 
@@ -301,6 +380,7 @@ def generate(repo):
     declared = declared_requirements(repo)
     if not set(declared) >= {"numpy", "scipy", "h5py"}:
         raise ValueError("unexpected install_requires: %s" % declared)
+    visitors = []
     for path in files:
         rel = os.path.relpath(path, repo)
         src = open(path).read()
@@ -308,6 +388,41 @@ def generate(repo):
         tree = ast.parse(src, filename=rel)
         v = FileRefs(rel)
         v.visit(tree)
+        visitors.append((rel, v))
+    # what a fresh interpreter can reach by attribute access after the package's own (unguarded or guarded) imports
+    ext_imports, cand = set(), set()
+    for rel, v in visitors:
+        for mod, line, g in v.imports:
+            if is_external(mod) and mod.split(".")[0] not in OPTIONAL:
+                ext_imports.add(mod)
+        for mod, name, line, g in v.from_imports:
+            if is_external(mod) and mod.split(".")[0] not in OPTIONAL:
+                ext_imports.add(mod)
+        for root, chain, line, g in v.refs:
+            if is_external(root) and root.split(".")[0] not in OPTIONAL and root != "numpy.ndarray":
+                full = root.split(".") + list(chain)
+                for k in range(1, len(full) + 1):
+                    cand.add(".".join(full[:k]))
+    cand |= set(ext_imports)
+    for m in list(ext_imports):
+        ps = m.split(".")
+        for k in range(1, len(ps) + 1):
+            cand.add(".".join(ps[:k]))
+    callees = set()
+    for rel, v in visitors:
+        for root, chain, kws, line, g in v.kwcalls:
+            if is_external(root) and root.split(".")[0] not in OPTIONAL:
+                callees.add(tuple(root.split(".") + list(chain)))
+    fresh, signatures = fresh_modules(ext_imports, cand, callees)
+    kwrefs = []
+    for rel, v in visitors:
+        for root, chain, kws, line, g in v.kwcalls:
+            if is_external(root) and root.split(".")[0] not in OPTIONAL:
+                callee = ".".join(root.split(".") + list(chain))
+                for kw in kws:
+                    kwrefs.append((callee, kw, rel, line, g))
+    kwrefs = sorted(set(kwrefs))
+    for rel, v in visitors:
         for mod, line, g in v.imports:
             top = mod.split(".")[0]
             optional = top in OPTIONAL
@@ -322,40 +437,30 @@ def generate(repo):
                 continue
             # walk through sub-modules, the first non-module attribute is the obligation
             if root == "numpy.ndarray":
-                import numpy
                 refs.append((root, chain[0], rel, line, g))
-                env.setdefault(root, numpy.ndarray)
+                env.setdefault(root, "ndarray")
                 continue
-            mobj, mpath, rest = resolve_module(root)
-            chain = rest + chain
-            if mobj is None:
+            full = root.split(".") + list(chain)
+            if full[0] not in fresh:
                 refs.append((root, chain[0] if chain else "", rel, line, g))
                 continue
-            cur, curpath = mobj, mpath
-            while chain:
-                a = chain[0]
-                nxt = getattr(cur, a, None)
-                if isinstance(nxt, types.ModuleType):
-                    cur, curpath, chain = nxt, curpath + "." + a, chain[1:]
-                    continue
-                try:   # a sub-module that is only loaded on import (scipy lazy loading)
-                    nxt = importlib.import_module(curpath + "." + a)
-                    cur, curpath, chain = nxt, curpath + "." + a, chain[1:]
-                    continue
-                except Exception:
-                    pass
-                break
-            if chain:
-                refs.append((curpath, chain[0], rel, line, g))
-            env.setdefault(curpath, cur)
+            # walk through the sub-modules a fresh interpreter reaches by attribute access; the first attribute that
+            # is not such a module is the obligation (a sub-module nobody imported is NOT reachable: numpy.lib.recfunctions)
+            k = 1
+            while k < len(full) and ".".join(full[:k + 1]) in fresh:
+                k += 1
+            curpath = ".".join(full[:k])
+            if k < len(full):
+                refs.append((curpath, full[k], rel, line, g))
+            env.setdefault(curpath, fresh[curpath])
     # environment: dir() of every module touched + importable modules
     for mod, rel, line, g, opt, decl in imports:
         if mod.split(".")[0] in OPTIONAL:
             continue
-        mobj, mpath, rest = resolve_module(mod)
-        if mobj is not None and not rest:
-            env.setdefault(mpath, mobj)
-    env_tab = {k: sorted(set(n for n in dir(m))) for k, m in env.items()}
+        if mod in fresh:
+            env.setdefault(mod, fresh[mod])
+    import numpy as _np
+    env_tab = {k: (sorted(set(dir(_np.ndarray))) if k == "numpy.ndarray" else list(m)) for k, m in env.items()}
     importable = sorted(env_tab)
     refs = sorted(set(refs))
     imports = sorted(set(imports))
@@ -375,6 +480,11 @@ def generate(repo):
         "  ⟨%s, %s, %d, %s, %s, %s⟩" % (lean_str(m), lean_str(f), l, "true" if g else "false", "true" if o else "false",
                                            "true" if d else "false")
         for m, f, l, g, o, d in imports) + "]\n")
+    out.append("structure KwRef where\n  callee : String\n  keyword : String\n  file : String\n  line : Nat\n  guarded : Bool\nderiving Repr\n")
+    out.append("/-- every keyword argument passed by name to a callable of numpy/scipy/h5py/stdlib -/\n")
+    out.append("def kwrefs : List KwRef := [\n" + ",\n".join(
+        "  ⟨%s, %s, %s, %d, %s⟩" % (lean_str(c), lean_str(k), lean_str(f), l, "true" if g else "false")
+        for c, k, f, l, g in kwrefs) + "]\n")
     out.append("/-- lower bound of python_requires in setup.py -/\n")
     out.append("def declaredPython : Nat × Nat := (%d, %d)\n" % pyver)
     out.append("/-- per source file: does it parse with the grammar of the declared minimum Python (message if not) -/\n")
@@ -399,6 +509,11 @@ def generate(repo):
         out.append("def names%d : List String := [%s]\n" % (i, ", ".join(lean_str(n) for n in env_tab[k])))
     out.append("def modules : List (String × List String) := [\n" + ",\n".join(
         "  (%s, names%d)" % (lean_str(k), i) for i, k in enumerate(importable)) + "]\n")
+    out.append("/-- parameter names (usable as keywords) and `**kwargs` flag of every called library callable whose signature the\n"
+               "INSTALLED library exposes to `inspect.signature`; callables without one (builtins, ufuncs) are absent -/\n")
+    out.append("def signatures : List (String × List String × Bool) := [\n" + ",\n".join(
+        "  (%s, [%s], %s)" % (lean_str(c), ", ".join(lean_str(n) for n in names), "true" if vk else "false")
+        for c, (names, vk) in sorted(signatures.items())) + "]\n")
     out.append("end Gen.Env\n")
     return {"PyrexVerif/Gen/Refs.lean": refs_text, "PyrexVerif/Gen/Env.lean": "".join(out)}
 
